@@ -597,8 +597,11 @@ def r22_bound_kind(ctx):
     rep.check(three, rule, ctx.fkey(z, None, "sign-window"), z.loc(),
               "the minute window is narrowed by the sign of the hours "
               "(conflicting signs are refused)",
-              "TimeZone.__init__ no longer narrows the minute window by the "
-              "sign of the hours", P + ("C06",))
+              "TimeZone.__init__ no longer checks the minutes against "
+              "-(MINUTES_IN_HOUR - 1) .. MINUTES_IN_HOUR - 1, narrowed to "
+              "0 on the side opposite to the sign of the hours (an offset "
+              "such as -00:59 is refused, or +01:-30 / +00:60 accepted)",
+              P + ("C06",))
 
 
 def _sign_window(f, mn, mx):
@@ -607,13 +610,19 @@ def _sign_window(f, mn, mx):
     from ..flow import alternatives, zero_relations
     hours = f.call_params[0] if f.call_params else "hours"
 
-    def window(name, narrowing):
+    from ..linear import lin
+
+    def window(name, narrowing, widest):
         alts = alternatives(f.node, name)
         if not alts:
             return False
         zero = [c for v, c in alts if U(v) == "0"]
         wide = [c for v, c in alts if "MINUTES_IN_HOUR" in U(v)]
         if len(zero) + len(wide) != len(alts) or not zero or not wide:
+            return False
+        # the wide bound is one short of a whole hour: |minutes| <= 59
+        if any(lin(v, {}).const() != widest for v, c in alts
+               if "MINUTES_IN_HOUR" in U(v)):
             return False
         # 0 exactly under `hours <narrowing> 0`; the wide bound otherwise
         # (either as the initial value or under the complementary test)
@@ -624,7 +633,7 @@ def _sign_window(f, mn, mx):
             if narrowing in rel:
                 return False
         return True
-    return window(mn, ">") and window(mx, "<")
+    return window(mn, ">", -59) and window(mx, "<", 59)
 
 
 # ------------------------------------------------------------------- R33
